@@ -473,3 +473,6 @@ def check(ctx):
     r9_bound_constructor_brings_its_matchers(ctx)
     r10_fallback_tree(ctx)
     r11_lookup_key_ignores_lifetime_spelling(ctx)
+
+
+CLAUSE += '; the positions recorded for path parameters and the lengths they are compared with count in the same unit'
